@@ -7,7 +7,8 @@ flow-integration solver's start gate:
   transfer  (array harness)    internal total residual <= opt_tol  =>  the user's KKT conditions
                                with the tolerances of the statement, for every scaling / row kind
   box       (C05)              iterates are inside the internal box (assumed here, proved there)
-  integration                  IntegrationSolver declaring Optimal at its first gate
+  integration                  IntegrationSolver declaring Optimal at its first gate; its bound / release
+                               events against their definitions (the integration itself is outside)
 """
 from . import kkt, loop
 
@@ -18,6 +19,7 @@ REQUIRED = [
     "C01.transfer.multiplier_positive_only_at_upper_bound", "C01.transfer.multiplier_negative_only_at_lower_bound",
     "C01.transfer.bound_multiplier_nonzero_only_at_active_bound", "C01.transfer.bound_multiplier_sign",
     "C01.integration.variable_bounds_hold_exactly", "C01.integration.constraints_feasible_to_tolerance", "C01.integration.stationarity_to_tolerance",
+    "C01.integration.release_event_watches_its_own_gradient_component", "C01.integration.one_release_event_per_pinned_variable",
 ]
 META = dict(
     functions_encoded=loop.FUNCTIONS + kkt.FUNCTIONS + kkt.INTEG_FUNCTIONS,
@@ -53,4 +55,11 @@ def tasks(tier):
         ig += [(["fixed", "lower"], ["ranged"]), (["boxed"], ["le"]), (["free"], ["eq0"])]
     for v, c in ig:
         t.append(dict(module="kkt", fn="h_integ", shape=dict(vars=v, cons=c), opts=o))
+    # the integration solver's pin / release events (what keeps a variable at a bound until its
+    # multiplier changes sign) against their definitions, arbitrary filter and states
+    evs = [(["lower", "boxed"], ["eq0"]), (["boxed", "upper"], [])]
+    if not q:
+        evs += [(["boxed", "boxed", "lower"], ["eq0"]), (["free", "upper"], ["eq0", "eq0"])]
+    for v, c in evs:
+        t.append(dict(module="kkt", fn="h_events", shape=dict(vars=v, cons=c), opts=o))
     return t
